@@ -181,6 +181,10 @@ class InterpreterBase:
             self.evaluate_codeblock(self.ast, start=1)
         except SubdirDoneRequest:
             pass
+        except (BreakRequest, ContinueRequest) as e:
+            # No enclosing foreach loop caught the request: report it as an error in the build definition.
+            keyword = 'break' if isinstance(e, BreakRequest) else 'continue'
+            raise InvalidCode.from_node(f'{keyword} statement outside of a foreach loop.', node=self.current_node)
 
     def evaluate_codeblock(self, node: mparser.CodeBlockNode, start: int = 0, end: T.Optional[int] = None) -> None:
         if node is None:
